@@ -183,10 +183,39 @@ func checkC03(c *CheckCtx) error {
 	if err := c.repro(crlfCheckout()...); err != nil {
 		return err
 	}
+	if err := c.repro(symlinkedDir()...); err != nil {
+		return err
+	}
 	if err := c.repro(hugeLine()...); err != nil {
 		return err
 	}
 	return c.randomFraming(c.pick(160, 3000), allAPIs, []string{"default", "ci", "update", "other"}, 0.4, "r")
+}
+
+// symlinkedDir: the Dir option reaches the snapshot directory through a symbolic link and the file
+// does not exist yet: the k-th call of a test still addresses slot k, in the recording run (where
+// the file comes into being between the calls) and in the replay.
+func symlinkedDir() []*Scenario {
+	var out []*Scenario
+	for i, api := range []string{"snapshot", "json", "ssnap"} {
+		sc := &Scenario{ID: fmt.Sprintf("symdir%d", i), Configs: stdConfigs(), Program: []string{"TestA", "TestB"}}
+		sc.Configs["al"] = &Cfg{Dir: sp("@/alias")}
+		sc.Init = append(sc.Init, InitFile{P: "snaps", IsDir: true}, InitFile{P: "alias", Content: []byte("snaps"), Role: "symlink", Owner: "dir"})
+		mk := func() []*Step {
+			st := []*Step{{Op: "begin", Name: "TestA"}}
+			for k := 0; k < 3; k++ {
+				st = append(st, &Step{Op: "match", Name: "TestA", API: api, Cfg: "al", Val: seqValue(api, k)})
+			}
+			st = append(st, &Step{Op: "end", Name: "TestA"}, &Step{Op: "begin", Name: "TestB"},
+				&Step{Op: "match", Name: "TestB", API: api, Cfg: "al", Val: seqValue(api, 7)}, &Step{Op: "match", Name: "TestB", API: api, Cfg: "al", Val: seqValue(api, 8)}, &Step{Op: "end", Name: "TestB"})
+			return st
+		}
+		sc.Procs = append(sc.Procs, &Proc{Spec: procSpec("default"), Steps: mk()})
+		sc.Procs = append(sc.Procs, &Proc{Spec: procSpec("ci"), Steps: mk()})
+		sc.Note = "Dir through a symbolic link, fresh file, three calls of one test via " + api + ": record, replay"
+		out = append(out, sc)
+	}
+	return out
 }
 
 // symlinkedSnapFile: the snapshot file is a symbolic link to a well-formed file kept elsewhere (a
